@@ -300,6 +300,15 @@ func runC04(e *Engine, r *Report) {
 	// ---- R4 storage errors in the step path propagate (engine.go/node.go)
 	st := e.CheckErrDiscipline(r, errScope{pkgs: map[string]bool{}, files: map[string]bool{"engine.go": true}}, map[string]string{})
 	r.floor("ERR-calls-engine", st.Calls, 10)
+	// generic storage-path rules (generic.go)
+	ruleLoopAcc(e, r, 2, "internal/tan", "internal/logdb")
+	ruleDeferredErr(e, r, 8, "internal/tan", "internal/logdb")
+	ruleSyncBeforeRename(e, r, 4, "internal/tan")
+	// ---- Tan: whenever an Update with a hard state is written, the
+	// index's state pointer is moved to that record (unconditionally: the
+	// record's key is the commit index, which need not change when term or
+	// vote do); same for entries
+	ruleTanIndexState(e, r)
 }
 
 // runPebbleSync: every pebble write in the kv wrapper takes the options value
